@@ -92,7 +92,7 @@ CLAIMED.update({
                  "elements of its explicit loop. Nine wrong semantics (break exits all loops, continue as break, return leaves "
                  "only the loop, condition tested once, unsorted iteration, filter ignored, also-for stops short, ...) must each "
                  "be discriminated by some program of the run."),
-        "note": _TB + "; map `values` compared as a multiset between comprehension and loop",
+        "note": _TB,
     },
     "C05": {
         "technique": "runtime monitoring: offline exactly-once checker over the in-program event log (every block activation followed by exactly one finally run), reference-evaluator differential for handler choice / block value / error value, CLI children",
